@@ -101,10 +101,18 @@ theorem FM_setAdd (s : List String) (n : String) :
   · omega
   · simp only [FM, List.map_append, maxL_append, List.map_cons, List.map_nil, maxL]; omega
 
+theorem seenAfterCall_cases (mine callee : List String) :
+    seenAfterCall mine callee = mine ∨ seenAfterCall mine callee = callee := by
+  unfold seenAfterCall
+  split
+  · exact Or.inr rfl
+  · split
+    · exact Or.inl rfl
+    · exact Or.inr rfl
+
 theorem FM_seenAfterCall (mine callee : List String) :
     FM frags vars w (seenAfterCall mine callee) ≤ max (FM frags vars w mine) (FM frags vars w callee) := by
-  unfold seenAfterCall
-  split <;> omega
+  rcases seenAfterCall_cases mine callee with h | h <;> rw [h] <;> omega
 
 /-! ### `collect_fields_untyped` -/
 
